@@ -25,9 +25,14 @@
 //                      User-Agent: Go-http-client/* when the client sent no such header (transport
 //                      defaults); the client's socket address inside X-Forwarded-For is printed @R;
 //                      header names are compared in canonical MIME form.
-//   client response  : Date, Content-Length, Transfer-Encoding, Connection (written by the servers).
-//   304 responses    : net/http's server drops Content-Type from every 304 it writes (both the fake
-//                      upstream and the server in front of the proxy), so it is not expected there.
+//   client response  : Connection and Transfer-Encoding (per-hop); Content-Length ONLY when the upstream
+//                      sent none (rfr=ch: then the length the client sees is the front server's own
+//                      framing choice).  With rfr=cl the upstream sends Content-Length and the client must
+//                      see the same one; Date is compared too (the upstream sends a fixed Date).
+//   204/304 responses: net/http's *server* deletes Content-Length (204, 304) and Content-Type (304) from
+//                      whatever the handler put into the header map, so the server in front of the proxy
+//                      never lets them through; they are not expected at the client.  The fake upstream
+//                      really sends them (hijacked connection, raw bytes) when rfr=cl.
 //   upstream response: the fake upstream suppresses net/http's Content-Type sniffing when the
 //                      script has no Content-Type, so "no Content-Type" really is sent.
 package main
@@ -64,6 +69,10 @@ type comp struct{}
 
 const followPath = "/__verif_followed"
 const followBody = "followed"
+
+// upstreamDate is the Date header of every upstream response (set by the handler, so that net/http
+// does not stamp its own and the client-side value can be compared).
+const upstreamDate = "Tue, 15 Nov 1994 08:12:31 GMT"
 
 // ---------------------------------------------------------------------------------------------
 // header lists and body tokens
@@ -252,12 +261,38 @@ func (w *world) upstream(rw http.ResponseWriter, req *http.Request) {
 	w.hits = append(w.hits, hit{method: req.Method, uri: req.RequestURI, header: req.Header.Clone(), body: body})
 	w.mu.Unlock()
 	h := rw.Header()
+	h.Set("Date", upstreamDate)
 	if req.URL.Path == followPath {
 		h.Set("Content-Type", "text/plain")
 		h.Set("X-Followed", "1")
+		if !sc.chunks {
+			h.Set("Content-Length", strconv.Itoa(len(followBody)))
+		}
 		rw.WriteHeader(200)
 		io.WriteString(rw, followBody)
+		if f, ok := rw.(http.Flusher); ok && sc.chunks {
+			f.Flush()
+		}
 		return
+	}
+	if !sc.chunks && (sc.status == 204 || sc.status == 304) {
+		// net/http's server would delete Content-Length (and Content-Type on 304) from a bodyless
+		// reply; write the bytes ourselves so that the upstream really sends them
+		if hj, ok := rw.(http.Hijacker); ok {
+			conn, buf, err := hj.Hijack()
+			if err == nil {
+				fmt.Fprintf(buf, "HTTP/1.1 %d Scripted\r\nDate: %s\r\n", sc.status, upstreamDate)
+				for _, x := range sc.hdrs {
+					for _, v := range x.vals {
+						fmt.Fprintf(buf, "%s: %s\r\n", x.name, v)
+					}
+				}
+				fmt.Fprintf(buf, "Content-Length: %d\r\nConnection: close\r\n\r\n", len(sc.body))
+				buf.Flush()
+				conn.Close()
+				return
+			}
+		}
 	}
 	for _, x := range sc.hdrs {
 		for _, v := range x.vals {
@@ -268,7 +303,7 @@ func (w *world) upstream(rw http.ResponseWriter, req *http.Request) {
 		h["Content-Type"] = nil // no sniffing: the script decides what is sent
 	}
 	allowed := bodyAllowed(req.Method, sc.status)
-	if !sc.chunks && sc.status != 204 {
+	if !sc.chunks {
 		h.Set("Content-Length", strconv.Itoa(len(sc.body)))
 	}
 	rw.WriteHeader(sc.status)
@@ -419,8 +454,11 @@ func (r *runner) Do(op []string) (string, bool) {
 		}
 		fmt.Fprintf(&sb, "um=%s uu=%s uh=%s ub=%s", kit.Enc(h.method), kit.Enc(h.uri), encHList(fromHTTPHeader(uh)), nameBody(h.body, btok))
 	}
-	for _, k := range []string{"Date", "Content-Length", "Transfer-Encoding", "Connection"} {
+	for _, k := range []string{"Transfer-Encoding", "Connection"} {
 		ch.Del(k)
+	}
+	if kit.KV(a, "rfr") == "ch" { // the upstream sent no Content-Length: the front server's own framing
+		ch.Del("Content-Length")
 	}
 	fmt.Fprintf(&sb, " cs=%d ch=%s cb=%s", cs, encHList(fromHTTPHeader(ch)), nameBody(cb, rbtok))
 	return sb.String(), true
@@ -640,7 +678,18 @@ func genOp(r *kit.Rng) string {
 		rhs = append(rhs, hdr{"Location", []string{"https://api.honeycomb.io/1/boards/abc123"}})
 	}
 	rbody := genBody(r, false)
-	if status == 204 || status == 304 {
+	if r.Chance(35) { // sizes around net/http's 2048-byte response buffer, where its framing decisions change
+		sizes := []int{0, 1, 2047, 2048, 2049, 8 << 10, 100 << 10}
+		if n := sizes[r.Intn(len(sizes))]; n == 0 {
+			rbody = "lit:%"
+		} else {
+			rbody = fmt.Sprintf("gen:%d:%d", r.Intn(1<<30), n)
+		}
+	}
+	if status == 204 {
+		rbody = "lit:%"
+	}
+	if status == 304 && !strings.HasPrefix(rbody, "gen:") { // never sent; its length is the Content-Length of the 304
 		rbody = "lit:%"
 	}
 	rfr := "cl"
